@@ -376,3 +376,17 @@ def fx_tailmask(fx):
     c = _ctx()
     n = tailmask.run(c, fx, ["src/lib.rs"])
     return n >= 3 and _fires(c, "tailmask::bad_count") and not _fires(c, "tailmask::ok_count") and not _fires(c, "tailmask::ok_rank")
+
+
+def fx_batch(fx):
+    from rules import sibling
+    c = _ctx()
+    n = sibling.batch_effects(c, fx, ["src/lib.rs"])
+    return n == 2 and _fires(c, "BadStore::remove_batch") and not _fires(c, "OkStore::remove_batch")
+
+
+def fx_lanes(fx):
+    from rules import simdsign
+    c = _ctx()
+    simdsign.byte_kernels(c, fx)
+    return _fires(c, "simdsign::bad_find_nul") and not _fires(c, "simdsign::ok_find_len") and not _fires(c, "simdsign::ok_memcmp16")
